@@ -7,7 +7,7 @@ from vlib.core import VERIF
 # ownership / heap theorems proved in the sibling projects (audited by name on every run: they must still be stated there)
 HEAP_THEOREMS = {
     'lean-parser/XrlParser/Props/C07.lean': ['heap_balanced_fixed', 'heap_leak_count'],
-    'lean-crystals/XrlCrystals/Props/C14.lean': ['crystals_no_ub'],
+    'lean-crystals/XrlCrystals/Props/C14.lean': ['crystals_no_ub', 'arrayFree_releases_everything', 'no_file_left_open'],
     'lean-cpp/XrlCpp/Props/C18.lean': ['wrap_no_leak_fixed', 'struct_released_when_destroyed'],
 }
 
